@@ -6,3 +6,6 @@ import "net/http"
 
 // verifYield is a scheduling point for the verification harness; a no-op in normal builds.
 func verifYield(point string, r *http.Request) {}
+
+// verifYieldKey is verifYield for code paths that have no *http.Request at hand.
+func verifYieldKey(point string, key string) {}
